@@ -32,6 +32,10 @@ enum OpKind {
     Take,
     Restore(usize),
     IsEnabled,
+    /// take and let the token go out of scope at once
+    TakeDiscard,
+    /// let an earlier token go out of scope without restoring it
+    DropToken(usize),
 }
 
 #[derive(Clone, Debug)]
@@ -58,6 +62,8 @@ fn op_name(o: OpKind) -> String {
         OpKind::LocalToggle => "local_toggle".into(),
         OpKind::Take => "take".into(),
         OpKind::Restore(i) => format!("restore#{i}"),
+        OpKind::TakeDiscard => "take_discard".into(),
+        OpKind::DropToken(i) => format!("drop_token#{i}"),
         OpKind::IsEnabled => "is_enabled".into(),
     }
 }
@@ -89,6 +95,17 @@ fn thread_body(b: Arc<Baton>, tid: usize, ops: Vec<OpKind>, log: Arc<Mutex<Vec<E
                 }
             }
             OpKind::IsEnabled => res = Some(tracing_enabled::is_enabled()),
+            OpKind::TakeDiscard => {
+                let _ = tracing_enabled::local_take();
+            }
+            OpKind::DropToken(want) => {
+                let held: Vec<usize> = (0..tokens.len()).filter(|&i| tokens[i].is_some()).collect();
+                if !held.is_empty() {
+                    let i = held[want % held.len()];
+                    token = i;
+                    drop(tokens[i].take());
+                }
+            }
         }));
         let ret = clock.fetch_add(1, Ordering::SeqCst);
         log.lock().unwrap().push(Event { tid, idx, op: *op, inv, ret, res, token, panicked: outcome.is_err() });
@@ -118,7 +135,7 @@ fn run(mut t: Tape) -> RunOut {
     let fine = t.choose(4) != 0; // hook granularity in three quarters of the runs
     let mut plans: Vec<Vec<OpKind>> = Vec::new();
     for _ in 0..nthreads {
-        let n = t.range(1, 8);
+        let n = t.range(1, 10);
         let mut ops = Vec::new();
         for _ in 0..n {
             let o = match t.choose(12) {
@@ -129,8 +146,15 @@ fn run(mut t: Tape) -> RunOut {
                 7 => OpKind::LocalEnable,
                 8 => OpKind::LocalDisable,
                 9 => OpKind::LocalToggle,
-                10 => OpKind::Take,
-                _ => OpKind::Restore(t.choose(4) as usize),
+                10 => *t.pick(&[OpKind::Take, OpKind::Take, OpKind::Take, OpKind::TakeDiscard]),
+                _ => {
+                    let i = t.choose(4) as usize;
+                    if t.choose(5) == 4 {
+                        OpKind::DropToken(i)
+                    } else {
+                        OpKind::Restore(i)
+                    }
+                }
             };
             ops.push(o);
         }
@@ -287,6 +311,18 @@ fn thread_pass(events: &[Event], tid: usize, v: &Variant) -> Result<Vec<GOp>, St
                     if let Some(saved) = tokens.remove(&e.token) {
                         l = saved;
                     }
+                }
+            }
+            OpKind::TakeDiscard => {
+                // nothing is kept, so nothing can come back later
+                if v.take_resets {
+                    l = L::Inherit;
+                }
+            }
+            OpKind::DropToken(_) => {
+                // a saved state that goes out of scope is gone; the override does not change
+                if e.token != usize::MAX {
+                    tokens.remove(&e.token);
                 }
             }
             OpKind::IsEnabled => {
